@@ -1622,6 +1622,7 @@ impl ObjectWrite for Action {
         match self {
             Action::Goto(dest) => {
                 let mut dict = Dictionary::new();
+                dict.insert("S", Primitive::name("GoTo"));
                 dict.insert("D", dest.to_primitive(update)?);
                 Ok(Primitive::Dictionary(dict))
             }
